@@ -3,4 +3,6 @@ let table : (string * (Model.sx -> Model.sx)) list = [
   "c20", Model.run_c20;
   "schema", Model.run_schema;
   "f64", Model.run_f64;
+  "simple", Model.run_simple;
+  "helper", Model.run_helper;
 ]
